@@ -1,3 +1,4 @@
+import TemplVerif.Generated.Skeletons
 import TemplVerif.Model.Sse
 import TemplVerif.Generated.Sse
 import TemplVerif.Proofs.Sse
@@ -45,5 +46,17 @@ theorem C19_unrepaired_counterexample :
 /-- Non-vacuity: a schedule in which a live client receives two events while another leaves mid-broadcast. -/
 example : (run Proofs.Sse.safeCfg {} [.subscribe 1, .subscribe 2, .broadcast, .cancel 2, .deliver 1 0, .exit 2, .drop 2 0,
     .broadcast, .deliver 1 1]).map (fun s => (s.clients.map (·.received), s.pending)) = some ([[0, 1], []], []) := by decide
+
+-- BEGIN transcription pins (written by tools/mkpins.py)
+/-- T1, transcription pins: the control structure and calls (extract/skeleton.go) of the functions whose models
+    were written by hand are the ones the models were transcribed from:
+      cmd/templ/generatecmd/sse/server.go Handler.Send
+      cmd/templ/generatecmd/sse/server.go Handler.ServeHTTP
+    A change of what one of them calls or how it branches breaks this theorem; the check then searches for a
+    failing input and reports either that or `no-failing-input-found`. -/
+theorem C19_transcription_pinned :
+    Generated.skel_sse_Send = 7103011776469186124 ∧
+    Generated.skel_sse_ServeHTTP = 13318822914245842495 := by decide
+-- END transcription pins
 
 end TemplVerif.Props.C19
